@@ -39,6 +39,7 @@ Dispatch(e) == LET k == e.k  a == e.a IN
     \/ e.op = "Reserve"      /\ e.res.exc = "none" /\ Reserve(k, a.n, e.res.val[1])
     \/ e.op = "MaxSize"      /\ e.res.exc = "none" /\ MaxSize(k, e.res.val[1])
     \/ e.op = "Fill"         /\ Fill2(k, a.i, a.j, a.v)
+    \/ e.op = "Algo"         /\ Algo(k, a.alg, a.i, a.m, a.j)
     \/ e.op = "CtorView"     /\ CtorView(k, a.blocks, a.n)
     \/ e.op = "AssignNV"     /\ AssignNV(k, a.n, a.v)
     \/ e.op = "AssignIL"     /\ AssignIL(k, a.bits)
